@@ -1,7 +1,8 @@
 """C11 — history-based check (see tools/histprop.py, coq/Monitors.v mon_C11)."""
+import re
+
 import common
 import histprop
-from common import from_replay, to_replay  # noqa: F401
 
 PID = "C11"
 COQ_MODULE = "Prop_C11"
@@ -13,17 +14,73 @@ TRUSTED = common.TRUSTED_COMMON
 ASSUMPTIONS = common.ASSUME_COMMON
 RULE = 'random API histories (1-3 threads, 4-14 calls, API-call-atomic) over a random universe of single locks, poisonable wrappers and collections of every kind / container / nesting depth <= 2 sharing leaves, with random holds of other threads present from the start; panic injected with a live guard and inside closures (lent and moved key); observation = result, releases, hold table and key probe after the catch; non-trivial = a panic that propagated; distinct = scenario text'
 EXHAUSTIVE = {"quick": False, "thorough": False}
-classify = histprop.classify
-signature = histprop.signature
+
+
+class KCase:
+    """a hold during which user code kills the lock it holds (RawLock::poison, a safe public method), then drops the guard,
+    returns from the closure or panics (harness/src/kil.rs) — outside the model's history vocabulary, judged on the
+    implementation by the property's own clause (Monitors.c11_kill_probe_ok)"""
+    LEAVES = {"m": 1, "r": 1, "b": 2, "t": 2, "o": 2}
+
+    def __init__(self, sid, root, mode, flavour, kill, panic):
+        self.sid, self.root, self.mode, self.flavour, self.kill, self.panic = sid, root, mode, flavour, kill, panic
+        self.hist, self.meta, self.sched = [], {}, None
+
+    def text(self):
+        return f"kq {self.sid} {self.root} {self.mode} {self.flavour} {int(self.kill)} {int(self.panic)}"
+
+
+def probe_cases():
+    out = []
+    for root, modes in (("m", ["ex"]), ("r", ["ex", "sh"]), ("b", ["ex"]), ("t", ["ex"]), ("o", ["ex", "sh"])):
+        for mode in modes:
+            for fl in ("guard", "try", "scoped", "scopedtry"):
+                for kill in (False, True):
+                    for panic in (False, True):
+                        out.append(KCase(f"c11k_{len(out)}", root, mode, fl, kill, panic))
+    return out
 
 
 def gen(tier, rng):
-    return histprop.gen(PID, tier, rng)
+    return histprop.gen(PID, tier, rng) + probe_cases()
 
 
 def coq_expr(s, r):
+    if isinstance(s, KCase):
+        m = re.match(r"ok (\d+) (\d+) (\d+) (\d+) (true|false) (true|false)$", r.get("kobs", "") or "")
+        if not m:
+            return "mkv true true false false"          # the probe was refused, would have waited or panicked outside user code
+        b = lambda x: "true" if x else "false"
+        ok = (f"c11_kill_probe_ok {KCase.LEAVES[s.root]} {b(s.mode == 'sh')} {b(s.panic)} {m.group(1)} {m.group(2)} "
+              f"{m.group(3)} {m.group(4)} {m.group(5)} {m.group(6)}")
+        return f"mkv true true ({ok}) ({ok})"
     return histprop.coq_expr(PID, s, r)
 
 
 def nontrivial(s, r):
+    if isinstance(s, KCase):
+        return s.kill
     return histprop.nontrivial(PID, s, r)
+
+
+def classify(s, r):
+    if isinstance(s, KCase):
+        return ["family=lock-killed-by-user-code-inside-its-hold", f"root={s.root}", f"mode={s.mode}", f"flavour={s.flavour}",
+                f"kill={s.kill}", f"panic={s.panic}"]
+    return histprop.classify(s, r)
+
+
+def signature(s):
+    return s.text() if isinstance(s, KCase) else histprop.signature(s)
+
+
+def to_replay(s):
+    return {"case": s.text()} if isinstance(s, KCase) else common.to_replay(s)
+
+
+def from_replay(j):
+    sc = j.get("scenario") or j
+    if "case" in sc:
+        t = sc["case"].split()
+        return [KCase(t[1], t[2], t[3], t[4], t[5] == "1", t[6] == "1")]
+    return common.from_replay(j)
